@@ -240,6 +240,7 @@ class CaseTimeout(BaseException):
     """not an Exception: extract() contains `except Exception` around every hook"""
 
 
+TIMEOUTS = [0]
 UNEXPECTED = []     # failures on F14-tagged descriptors that are NOT the known deviation (reported by extra_legs)
 
 
@@ -249,10 +250,11 @@ def run_case(desc):
     d = copy.deepcopy(desc)
 
     def on_alarm(signum, frame):    # extract() has no fuel: a wrong splice can loop for ever
-        raise CaseTimeout("case did not finish within 30 s (extract() looping?)")
+        TIMEOUTS[0] += 1
+        raise CaseTimeout("case did not finish in time (extract() looping?)")
 
     old = signal.signal(signal.SIGALRM, on_alarm)
-    signal.setitimer(signal.ITIMER_REAL, 30, 5)
+    signal.setitimer(signal.ITIMER_REAL, 10 if TIMEOUTS[0] < 3 else 2, 2)
     try:
         obs = G.run(d)
     finally:
